@@ -1,17 +1,30 @@
 (* C11 — the WebVTT reader reproduces cues, inline markup and cue-setting geometry.
    Only statements, `exact`, and Print Assumptions.  M = Model/VttTokenizer.v + Model/VttReader.v (transcriptions
    of ttconv/vtt/tokenizer.py and ttconv/vtt/reader.py), S = Spec/VttSpec.v.  All statements are for unbounded
-   inputs.  What is false of the faithful model is in Findings/C11.v. *)
+   inputs.  What is false of the faithful model is in Findings/C11.v (one finding is left: ruby-structure). *)
 From Coq Require Import QArith.
 From TT Require Import Base.Prelude Model.VttTokenizer Model.VttReader Spec.VttSpec.
 From TT Require Import Proofs.C11.Tokenizer Proofs.C11.Time Proofs.C11.Region Proofs.C11.Tree Proofs.C11.Lines.
 
 (* tokenizing the WebVTT syntax of a token list returns the list: every list of string / start-tag (with classes
-   and annotation) / end-tag / timestamp tokens in normal form, of any length.
-   Full statement (WebVTT also allows character references inside annotations, printed `&amp;`): refuted,
-   Findings C11_annotation_charref_refuted; nf_token therefore excludes `&` from annotations. *)
+   and annotation) / end-tag / timestamp tokens in normal form, of any length.  Annotations may hold any characters:
+   `&`, `<`, `>` are printed as character references and decoded by the annotation state (repaired in 541c2c8). *)
 Theorem C11_tokenizer_roundtrip : forall ts, nf_list ts -> tokenize (print_tokens ts) = ts.
 Proof. exact tokenizer_roundtrip. Qed.
+(* the same with strings spelled with any mix of literal characters and character references `&…;` (items): the
+   tokenizer returns every string's VALUE - each reference as html.unescape decodes "&…;" (with its `;`, repaired in
+   30019ef) - and every other token as printed *)
+Theorem C11_tokenizer_items : forall l, nf_items l -> tokenize (items_print l) = map item_token l.
+Proof. exact tokenizer_items. Qed.
+(* the references WebVTT lists by name decode to the characters the standard gives them *)
+Theorem C11_webvtt_named_refs : Forall ref_good (map RefNamed [[97;109;112]; [108;116]; [103;116]; [108;114;109]; [114;108;109]; [110;98;115;112]]).
+Proof. exact webvtt_refs_good. Qed.
+(* numeric references as a class: &#D…; and &#xH…; of every number that html.unescape maps to itself (a scalar value
+   outside html's remapping and removal tables: numeric_charref n = [n], executable) mean that character *)
+Theorem C11_dec_ref_good : forall n, 0 <= n < 10 ^ 40 -> numeric_charref n = [n] -> ref_good (RefDec n).
+Proof. exact dec_ref_good. Qed.
+Theorem C11_hex_ref_good : forall n, 0 <= n < 16 ^ 40 -> numeric_charref n = [n] -> ref_good (RefHex n).
+Proof. exact hex_ref_good. Qed.
 
 (* a printed timestamp (hours optional, two or more hour digits) is read as exactly value/1000 *)
 Theorem C11_exact_time : forall t, wf_ts t -> vtt_timestamp_to_secs (print_ts t) = Some (Qmake (ts_ms t) 1000).
@@ -22,11 +35,15 @@ Theorem C11_time_value : forall t,
    inject_Z (ts_min t) * 60 + inject_Z (ts_sec t) + Qmake (ts_frac t) 1000)%Q.
 Proof. exact ts_ms_seconds. Qed.
 
-(* the region selected by ANY list of setting strings outside the recorded triggers lies inside the root
-   container with non-negative extent.  Full statement (no trigger hypothesis): refuted, Findings
-   C11_region_not_clamped_refuted, C11_line_number_nonpositive_refuted, C11_vertical_line_center_refuted. *)
-Theorem C11_region_inside_partial : forall cs, region_trigger cs = false -> inside_root (compute_region cs).
-Proof. exact region_inside_partial. Qed.
+(* the region selected by ANY list of setting strings - every combination of vertical, line (percentage or line
+   number, zero, negative, beyond the grid), position, size, align, valid or not - lies inside the root container with
+   non-negative extent.  No trigger hypothesis is left (repairs 5598a49, b972272, ffa7cc9, e725a80, 39537f7). *)
+Theorem C11_region_inside : forall cs, inside_root (compute_region cs).
+Proof. exact region_inside. Qed.
+(* in the words of S: the containment clause of Spec/VttSpec.v (clause 20 of the check) accepts the region M computes
+   for every list of setting strings *)
+Theorem C11_region_inside_spec : forall cs, VttSpec.region_inside (VttCases.view_region (compute_region cs)) = true.
+Proof. exact region_inside_spec. Qed.
 
 (* equal settings share a region: after a cue's settings produced or found region i, the same settings find
    region i again and add nothing, whatever was appended in between; i designates the computed region *)
@@ -35,14 +52,38 @@ Theorem C11_region_sharing : forall rs l rs1 i, get_or_make_region rs l = (rs1, 
   (exists r, nth_error rs1 (Z.to_nat i) = Some r /\ region_eqb r (compute_region l) = true) /\
   forall ext, get_or_make_region (rs1 ++ ext) l = (rs1 ++ ext, i).
 Proof. exact region_sharing. Qed.
+(* over the cues of one document (`assign` = the reader's region list, cue after cue): two cues get the same region
+   if and only if their settings compute the same region value - same box, writing mode, display and text alignment *)
+Theorem C11_region_sharing_iff : forall ls rs ids a b la lb ia ib, assign [] ls = (rs, ids) ->
+  nth_error ls a = Some la -> nth_error ls b = Some lb ->
+  nth_error ids a = Some ia -> nth_error ids b = Some ib ->
+  (ia = ib <-> region_eqb (compute_region la) (compute_region lb) = true).
+Proof. exact region_sharing_iff. Qed.
+(* the same for the paragraphs of a file (read_cues = what C11_cues / C11_blocks show to_model computes) *)
+Theorem C11_cues_share_region_iff : forall cs rs ps a b ca cb pa pb, Forall (fun c => rc_lines c <> []) cs ->
+  read_cues cs [] [] = OkDoc rs ps ->
+  nth_error cs a = Some ca -> nth_error cs b = Some cb -> nth_error ps a = Some pa -> nth_error ps b = Some pb ->
+  (pa_region pa = pa_region pb <->
+   region_eqb (compute_region (rc_settings ca)) (compute_region (rc_settings cb)) = true).
+Proof. exact cues_share_region_iff. Qed.
 
-(* cue tree round trip, by induction on the tree: parsing the printed cue text of ANY tree of the fragment
-   (text, b/i/u/c.classes/lang/v nested to any depth) builds exactly the span tree that carries those styles
-   on exactly the enclosed text.  Partial: timestamps, character references other than the printer's escapes
-   and ruby are outside the fragment (see Findings for what fails there). *)
-Theorem C11_tree_partial : forall pb att ns, wf_nodes ns ->
-  parse_cue_text pb att (print_cue_text (map node_of ns)) = inl (spans_of true ns).
+(* cue tree round trip, by induction on the tree: parsing the printed cue text of ANY tree of text (literal characters
+   and character references that mean what S says, ref_good), inline timestamps and b/i/u/c.classes/lang/v elements
+   (annotations with any characters) nested to any depth builds exactly the span tree that carries those styles on
+   exactly the enclosed text, and every text span carries the begin, relative to the cue, of the last timestamp before
+   it in the cue text - inside or outside tags, after any number of timestamps (spans_of threads that time through the
+   tree; repaired in f39339e).  This is the full statement for cue texts without ruby. *)
+Theorem C11_tree : forall pb att ns, wf_nodes ns ->
+  parse_cue_text pb att (print_cue_text (flat_map nodes_of ns)) = inl (fst (spans_of pb true None ns)).
 Proof. exact tree_roundtrip. Qed.
+(* with ruby.  Full statement (every cue text of the grammar Spec.VttSpec.cnode): refuted, Findings
+   C11_ruby_structure_refuted / C11_ruby_base_timestamp_refuted (recorded finding ruby-structure).  Partial: ruby
+   elements at the top level of the cue, every base one line of text, annotations any forest of text, timestamps
+   and elements without a line break directly inside rt (wf_tnodes): Rbc holds one Rb per base, Rtc one Rt per
+   annotation, the time of the last timestamp is threaded base, annotation, base, … *)
+Theorem C11_tree_ruby_partial : forall pb att ns, wf_tnodes ns ->
+  parse_cue_text pb att (print_cue_text (flat_map tnodes_of ns)) = inl (fst (tspans_of pb None ns)).
+Proof. exact tree_ruby_roundtrip. Qed.
 
 (* the file-level line machine, by induction on the list of cues: a file made of the header line and cue blocks
    (optional identifier line, timing line with hours optional and any setting words, zero or more non-blank
@@ -52,10 +93,30 @@ Proof. exact tree_roundtrip. Qed.
    payload yields no paragraph, raises nothing and leaves its neighbours untouched (repaired in 05a353c);
    read_cues (Proofs/C11/Lines.v) is that meaning.  For payloads without leading/trailing CR and without
    backslashes the parsed text is the lines joined by LF.  The empty file is the empty document (7ed55ac).
-   NOTE/STYLE/REGION blocks are not part of this statement (they are exercised by the correspondence run). *)
+   NOTE/STYLE/REGION blocks: C11_blocks below. *)
 Theorem C11_cues : forall hdr cs, no_lf hdr = true -> Forall rcue_ok cs ->
   to_model (file_text hdr cs) = read_cues cs [] [].
 Proof. exact file_cues. Qed.
+(* NOTE / STYLE / REGION blocks are skipped, as a theorem about the block splitter for EVERY line list: a file whose
+   blocks are cue blocks and blocks to skip - first line "NOTE …" or "STYLE…" followed by any non-blank lines (lines
+   holding "-->" included), or any block none of whose lines holds "-->" (REGION blocks) - in any order, reads exactly
+   as the file of its cue blocks. *)
+Theorem C11_blocks : forall hdr bs, no_lf hdr = true -> Forall rblock_ok bs ->
+  to_model (file_text_b hdr bs) = read_cues (cues_of_blocks bs) [] [].
+Proof. exact file_blocks. Qed.
+Theorem C11_skipped_blocks_invisible : forall hdr bs, no_lf hdr = true -> Forall rblock_ok bs ->
+  to_model (file_text_b hdr bs) = to_model (file_text hdr (cues_of_blocks bs)).
+Proof. exact skipped_blocks_invisible. Qed.
+Theorem C11_note_block : forall first body, line_ok (s_NOTE_ ++ first) = true -> forallb line_ok body = true ->
+  rblock_ok (RSkip ((s_NOTE_ ++ first) :: body)).
+Proof. exact note_block_ok. Qed.
+Theorem C11_style_block : forall first body, line_ok (s_STYLE ++ first) = true -> forallb line_ok body = true ->
+  rblock_ok (RSkip ((s_STYLE ++ first) :: body)).
+Proof. exact style_block_ok. Qed.
+Theorem C11_region_block : forall body,
+  forallb (fun l => line_ok l && negb (note_or_style l) && negb (contains s_arrow (nl l))) body = true ->
+  rblock_ok (RSkip (s_REGION :: body)).
+Proof. exact region_block_ok. Qed.
 Theorem C11_empty_file : to_model [] = OkDoc [] [].
 Proof. exact empty_file. Qed.
 Theorem C11_cue_text_lines : forall c, rc_lines c <> [] -> plain_payload (rc_lines c) = true ->
@@ -70,11 +131,32 @@ Example C11_example_file :
 Proof. exact file_example. Qed.
 Example C11_example_tokens :
   nf_list [TString [97;38;60]; TStart [99] (Some [[114;101;100];[98;103;95;98;108;117;101]]) None; TString [120];
-           TEnd [99]; TStart [118] (Some []) (Some [84;111;109;32;74]); TTs [48;48;58;48;49;46;48;48;48]; TEnd []].
+           TEnd [99]; TStart [118] (Some []) (Some [84;111;109;32;38;32;74]); TTs [48;48;58;48;49;46;48;48;48]; TEnd []].
 Proof. exact nf_example. Qed.
-Example C11_example_region :
-  region_trigger [[108;105;110;101;58;50;48;44;101;110;100]; [97;108;105;103;110;58;108;101;102;116]] = false.
-Proof. exact region_inside_example. Qed.
+Example C11_example_items :
+  nf_items [IStr [PLit [97]; PRef (RefNamed [108;114;109]); PRef (RefDec 233); PRef (RefHex 128512); PLit [38;60]];
+            ITok (TStart [98] None None); IStr [PRef (RefNamed [110;98;115;112])]; ITok (TEnd [98])].
+Proof. exact items_example. Qed.
+Example C11_example_tree :
+  wf_nodes [SText [PLit [97;10;98]];
+            STag TgB [STag (TgC [[114;101;100]]) [SText [PLit [120]]]; STs (mkTs None 0 12 0); SText [PLit [121]]];
+            STag (TgV [84;111;109;32;38;32;74]) [SText [PLit [122]; PRef (RefNamed [108;114;109])]]; STag (TgLang [101;110]) []].
+Proof. exact tree_example. Qed.
+Example C11_example_numeric_refs : ref_good (RefDec 233) /\ ref_good (RefHex 128512) /\ ref_good (RefDec 60).
+Proof. exact numeric_refs_example. Qed.
+Example C11_example_tree_ruby :
+  wf_tnodes [TPlain (SText [PLit [120]]);
+             TRuby [([PLit [98;97;115;101]], [SText [PLit [97;110]]; STag TgB [SText [PLit [110]]]]); ([PLit [98;50]], [])];
+             TPlain (SText [PLit [121]])].
+Proof. exact tree_ruby_example. Qed.
+Example C11_example_blocks :
+  Forall rblock_ok
+    [RSkip [[78;79;84;69;32;97]; [48;48;58;48;49;46;48;48;48;32;45;45;62;32;120]];
+     RCue (mkRcue None (mkTs None 0 1 0) (mkTs None 0 2 0) [] [[97]]);
+     RSkip [[83;84;89;76;69]; [58;58;99;117;101;32;123;125]];
+     RSkip [s_REGION; [105;100;58;102;114;101;100]];
+     RCue (mkRcue (Some [105;100]) (mkTs None 0 3 0) (mkTs None 0 4 0) [] [[98]])].
+Proof. exact blocks_example. Qed.
 Example C11_example_time :
   vtt_timestamp_to_secs (print_ts (mkTs (Some [1;0;2]) 3 4 280)) = Some (Qmake 367384280 1000).
 Proof. exact exact_time_example. Qed.
@@ -82,9 +164,22 @@ Proof. exact exact_time_example. Qed.
 Print Assumptions C11_tokenizer_roundtrip.
 Print Assumptions C11_exact_time.
 Print Assumptions C11_time_value.
-Print Assumptions C11_region_inside_partial.
+Print Assumptions C11_region_inside.
+Print Assumptions C11_region_inside_spec.
 Print Assumptions C11_region_sharing.
-Print Assumptions C11_tree_partial.
+Print Assumptions C11_region_sharing_iff.
+Print Assumptions C11_cues_share_region_iff.
+Print Assumptions C11_tokenizer_items.
+Print Assumptions C11_webvtt_named_refs.
+Print Assumptions C11_dec_ref_good.
+Print Assumptions C11_hex_ref_good.
+Print Assumptions C11_tree.
+Print Assumptions C11_tree_ruby_partial.
 Print Assumptions C11_cues.
+Print Assumptions C11_blocks.
+Print Assumptions C11_skipped_blocks_invisible.
+Print Assumptions C11_note_block.
+Print Assumptions C11_style_block.
+Print Assumptions C11_region_block.
 Print Assumptions C11_cue_text_lines.
 Print Assumptions C11_empty_file.
